@@ -507,4 +507,28 @@ def run(chk):
             return False, "no path of TraceparentFilter::matches uses the computed incoming traceparent", [], b.span
         return True, "", ["%d span paths return the incoming traceparent's sampled flag" % checked]
     chk.ob("C18.R2:filter-returns-decision", "for a span the filter's answer is the sampled flag of its incoming traceparent", filter_returns_decision)
+
+    def who_sets_active():
+        """The thread's active traceparent is replaced only by TraceparentCtxt::enter and ::exit (which swap it with the frame's slot, so every
+        replacement is undone in stack order): a further caller of set_active_traceparent - a reset, a direct install - is not restored when a
+        span or pushed header goes out of scope."""
+        callers = set()
+        for k, b in P.bodies.items():
+            if b.crate != "emit_traceparent" or "::tests::" in k:
+                continue
+            for c in b.calls(normal_only=True):
+                if c.callee.get("name") == "set_active_traceparent":
+                    callers.add(k.split("::{closure")[0])
+            for c in b.calls(normal_only=True):
+                for a in c.args:
+                    o = b.origin(a)
+                    if o[0] == "const" and str(o[1].get("def", "")).endswith("::ACTIVE_TRACEPARENT") and not k.split("::{closure")[0].endswith(("set_active_traceparent", "get_active_traceparent")):
+                        callers.add(k.split("::{closure")[0] + " (direct)")
+        if not callers:
+            raise mir.AnchorMissing("callers of set_active_traceparent")
+        extra = sorted(x for x in callers if not re.search(r"TraceparentCtxt<C> as emit_core::ctxt::Ctxt>::(enter|exit)$", x))
+        if extra:
+            return False, "%s replaces the thread's active traceparent outside TraceparentCtxt::enter / exit" % extra[0], [], None
+        return True, "", sorted(callers)
+    chk.ob("C18.R4:who-sets-active", "only TraceparentCtxt::enter and ::exit replace the thread's active traceparent", who_sets_active)
     return chk
